@@ -112,6 +112,12 @@ Theorem C09_validate_count_bound : forall h dims, Hs.validate h dims = Hs.Ok -> 
 Proof. exact SliceRefineSliceH.validate_count_bound. Qed.
 Print Assumptions C09_validate_count_bound.
 
+(* ... and the element-level model of ReadSlice refuses a larger request that lies inside the dataset *)
+Theorem C09_read_slice_too_large : forall lay full dims st cn, Forall Hs.u64 dims -> Hs.slice_valid st cn dims ->
+  Hs.max_hyperslab_elements < Hs.prodN cn -> Hs.read_slice lay full dims st cn = None.
+Proof. exact SliceRefineSliceH.read_slice_too_large. Qed.
+Print Assumptions C09_read_slice_too_large.
+
 (* the hypotheses of C09_file_slice_contiguous and C09_file_read_slice_contiguous are satisfiable (the runs themselves:
    C09_file_example_2d, Proofs/SliceRefineExamples.v ex_slice) *)
 Theorem C09_file_slice_witness :
